@@ -141,6 +141,10 @@ def build(frag, solo=False, quiet=False):
     os.makedirs(bindir, exist_ok=True)
     binpath = os.path.join(bindir, "%s-%s-%s.test" % (tag, mode, key))
     if os.path.exists(binpath):
+        try:
+            os.utime(binpath, None)  # in use: keeps it out of the pruning below
+        except OSError:
+            pass
         return binpath
     t0 = time.time()
     overlay = {}
@@ -216,13 +220,15 @@ def build(frag, solo=False, quiet=False):
         print("VERIF-ERROR build failed (%s):\n%s%s" % (" ".join(cmd), r.stdout, r.stderr))
         sys.exit(2)
     os.rename(binpath + ".tmp", binpath)
-    # keep the build directory small: drop older binaries of the same tag/mode
+    # keep the build directory small: drop binaries of the same tag/mode that nobody has used for hours. A
+    # binary may be in use by another vcheck running at this moment (C30 and C37 re-execute theirs for worker
+    # processes): recently used ones are never removed.
     for old in glob.glob(os.path.join(bindir, "%s-%s-*.test" % (tag, mode))):
-        if old != binpath:
-            try:
+        try:
+            if old != binpath and time.time() - os.path.getmtime(old) > 6 * 3600:
                 os.remove(old)
-            except OSError:
-                pass
+        except OSError:
+            pass
     if not quiet:
         print("BUILD %s %.1fs" % (os.path.basename(binpath), time.time() - t0))
     return binpath
